@@ -9,6 +9,7 @@ import (
 	"os/exec"
 	"strings"
 	"sync"
+	"sync/atomic"
 	"time"
 )
 
@@ -126,7 +127,12 @@ func (p *proc) readLine() string {
 	return strings.TrimSpace(line)
 }
 
+// progressTick counts solver round trips; main's stall guard watches it.
+var progressTick int64
+
 func (p *proc) check(decls []VarDecl, pc, extra, wantVals []string, timeoutMs int) (string, map[string]string) {
+	atomic.AddInt64(&progressTick, 1)
+	defer atomic.AddInt64(&progressTick, 1)
 	if p.dead {
 		return "unknown:solver died", nil
 	}
@@ -304,6 +310,7 @@ func (s *Solver) count(r string) {
 // Feasible: can pc ∧ cond hold? Decided on the abstraction only: "unsat" there is
 // definitive; anything else keeps the path (sound: more paths, never fewer).
 func (s *Solver) Feasible(decls []VarDecl, pc []string, cond string) bool {
+	atomic.AddInt64(&progressTick, 1)
 	t0 := time.Now()
 	defer func() { s.Dur += time.Since(t0) }()
 	hsh := sha256.New()
